@@ -163,3 +163,17 @@ Proof.
     + apply filter_ext. intros a. unfold is_released. destruct (ac_status a); reflexivity.
     + exact (clear_fold _ _ _ Ef).
 Qed.
+
+(* the release rule, last link: when the key released is the only one the chord still waits for, the chord is marked Released
+   (if its action has been read by the layout) or UnreadReleased (if not yet: it is then released right after it has been read) *)
+Theorem last_release_marks_the_chord_released j a :
+  mem_n j (ac_keys a) = true -> (forall k, In k (ac_remaining a) -> k = j) ->
+  ac_remaining (release_in_ach j a) = [] /\
+  ac_status (release_in_ach j a) = match ac_status a with AUnread | AUnreadReleased => AUnreadReleased | _ => AReleased end.
+Proof.
+  intros Hm Hall. unfold release_in_ach. rewrite Hm. cbn [negb].
+  assert (Hrem : filter (fun pk => negb (pk =? j)) (ac_remaining a) = []).
+  { induction (ac_remaining a) as [|k r IH]; [reflexivity|]. cbn [filter].
+    rewrite (Hall k (or_introl eq_refl)), N.eqb_refl. cbn [negb]. apply IH. intros k' Hk'. apply Hall. right. exact Hk'. }
+  rewrite Hrem. cbn [ac_remaining ac_status]. split; reflexivity.
+Qed.
